@@ -410,6 +410,16 @@ Theorem scale_center_matrix : forall F (Fo : FieldOps F) (Ff : IsField F) n c (M
 Proof. exact main_scale_center_matrix. Qed.
 Print Assumptions scale_center_matrix.
 
+(* the Isomap stage as it was BEFORE F23 (no `(S + S^T)/2`) is permutation- and scale-equivariant too: the
+   check accepts either variant of that one statement (which one is right is C04's subject) *)
+Theorem isomap_pre_f23_equivariant : forall F (Fo : FieldOps F) (Ff : IsField F) n p q c (G : mat F),
+  (is_bij n p q -> meq n n (isomap_matrix_pre_f23 n (pact q G)) (pact q (isomap_matrix_pre_f23 n G))) /\
+  (of_nat n <> 0%F ->
+   meq n n (isomap_matrix_pre_f23 n (mscale c G)) (mscale (c * c)%F (isomap_matrix_pre_f23 n G))) /\
+  (forall LG, isomap_matrix_pre_f23_exec n LG = mtab n n (isomap_matrix_pre_f23 n (mof LG))).
+Proof. exact main_isomap_pre_f23_equivariant. Qed.
+Print Assumptions isomap_pre_f23_equivariant.
+
 (* regression theorems for a class of edits (center_matrix_skip is NOT the shipped code): an early-out
    "all column means pass `small`" is harmless when `small` accepts exact zeros only ... *)
 Theorem center_skip_exact_harmless : forall F (Fo : FieldOps F) (Ff : IsField F) small n (M : mat F),
